@@ -172,6 +172,10 @@ func (t *runner) testSet(csr charcode.CodeSpaceRange, modelShare int) {
 	// then gives decode = tree-level decode for all strings, tdecode_spec
 	// gives tree-level decode = specification for all strings.
 	{
+		if nn := len(c.VerifNodes()); nn > 0xfffc {
+			// the uint16 cursor of Decode/AppendCode must never reach the special child values
+			e.Fail("node-array-exceeds-uint16-cursor", fmt.Sprintf("NewCodec returns a codec with %d nodes (more than 65532)", nn), wire)
+		}
 		var nb []byte
 		for _, n := range c.VerifNodes() {
 			nb = append(nb, n.Bound, byte(n.Child>>8), byte(n.Child))
@@ -344,6 +348,99 @@ func (t *runner) testHuge() {
 					return
 				}
 			}
+		}
+	}
+}
+
+// testCapacity sweeps the node count of the linearised table across the capacity
+// of the uint16 child index / cursor (class of seeded change C12-7).  The sets are
+// single-code two-byte ranges: first bytes 00..FC have all second bytes but one
+// (253 pairwise different groups of 256 nodes), first bytes FD, FE, FF have k1, k2,
+// k3 leading second bytes (groups of k+1 nodes), so the table needs
+// 256 + 253*256 + (k1+1) + (k2+1) + (k3+1) nodes and the LAST group is the one of FF.
+// NewCodec must either refuse the set or return a codec with at most 65532 nodes
+// that classifies every probe as the ranges say (the model and the validator are not
+// run on these sets: the extracted code uses unary numbers).
+func (t *runner) testCapacity(target, k3 int) {
+	e := t.e
+	sum := target - (256 + 253*256) - 3 - k3
+	k1, k2 := sum/2+1, sum-sum/2-1
+	for k1 == k3 || k2 == k3 || k1 == k2 {
+		k1, k2 = k1+1, k2-1
+	}
+	if k1 < 1 || k2 < 1 || k1 > 255 || k2 > 255 {
+		return
+	}
+	var valid [256][256]bool
+	var csr charcode.CodeSpaceRange
+	one := func(b, x int) {
+		valid[b][x] = true
+		csr = append(csr, charcode.Range{Low: []byte{byte(b), byte(x)}, High: []byte{byte(b), byte(x)}})
+	}
+	for b := 0; b < 253; b++ {
+		for x := 0; x < 256; x++ {
+			if x != b {
+				one(b, x)
+			}
+		}
+	}
+	for i, k := range []int{k1, k2, k3} {
+		for x := 0; x < k; x++ {
+			one(253+i, x)
+		}
+	}
+	what := map[string]any{"csr": fmt.Sprintf("single-code two-byte ranges needing %d nodes (k1=%d k2=%d k3=%d)", target, k1, k2, k3)}
+	e.Count(true, fmt.Sprintf("capacity-%d-%d", target, k3), "set-capacity-boundary")
+	c, err := safeNewCodec(csr)
+	if err != nil && strings.HasPrefix(err.Error(), "panic") {
+		e.Fail("newcodec-panic-large-tree", "NewCodec panics near the capacity of the node table: "+err.Error(), what)
+		return
+	}
+	if err != nil || c == nil {
+		if target <= 65532 {
+			what["error"] = fmt.Sprint(err)
+			e.Fail("valid-set-rejected", "NewCodec rejects a valid set whose table fits into 65532 nodes", what)
+		}
+		e.Dist["capacity-rejected-with-error"]++
+		return
+	}
+	e.Dist["capacity-accepted"]++
+	if nn := len(c.VerifNodes()); nn > 0xfffc {
+		what["nodes"] = nn
+		e.Fail("node-array-exceeds-uint16-cursor", fmt.Sprintf("NewCodec returns a codec with %d nodes (more than 65532)", nn), what)
+	}
+	probe := func(b, x int) bool {
+		s := []byte{byte(b), byte(x), 0x11, 0x22}
+		code, k, v, perr := safeDecode(c, s)
+		if perr != "" || v != valid[b][x] || k != 2 || uint32(code) != uint32(b)|uint32(x)<<8 {
+			what["input"] = common.Hex(s)
+			what["got"] = fmt.Sprintf("code=%#x consumed=%d valid=%v %s", code, k, v, perr)
+			what["want"] = fmt.Sprintf("consumed=2 valid=%v", valid[b][x])
+			e.Fail("decode-vs-spec", "Decode disagrees with the code space ranges near the capacity of the node table", what)
+			return false
+		}
+		if v {
+			back, aerr := safeAppend(c, code)
+			if aerr != "" || len(back) != 2 || back[0] != byte(b) || back[1] != byte(x) {
+				what["input"] = common.Hex(s)
+				what["appended"] = common.Hex(back)
+				e.Fail("roundtrip-decode-append", "AppendCode(Decode(s)) differs from the consumed bytes near the capacity of the node table", what)
+				return false
+			}
+		}
+		e.Count(true, fmt.Sprintf("capacity-%d-%d|%d|%d", target, k3, b, x), "capacity-probe")
+		return true
+	}
+	for b := 240; b < 256; b++ {
+		for x := 0; x < 256; x++ {
+			if !probe(b, x) {
+				return
+			}
+		}
+	}
+	for i := 0; i < 3000; i++ {
+		if !probe(e.Rand.IntN(256), e.Rand.IntN(256)) {
+			return
 		}
 	}
 }
@@ -562,6 +659,16 @@ func main() {
 	// a valid, prefix-free set whose lookup tree needs more than 65531 nodes
 	t.testHuge()
 	t.testLarge()
+	// node counts around the capacity of the uint16 index: 65532 is the last count that fits
+	for _, k3 := range []int{251, 120} {
+		step := e.Pick(61, 13)
+		for target := 65532 - 305; target <= 65536+310 && (e.Thorough || k3 == 251); target += step {
+			t.testCapacity(target, k3)
+		}
+		for _, target := range []int{65530, 65531, 65532, 65533, 65534, 65535, 65536, 65537, 65540} {
+			t.testCapacity(target, k3)
+		}
+	}
 
 	rs := allRanges(2)
 	// all single ranges
